@@ -20,6 +20,10 @@ U = dict(
     sendmsg=dict(name="c16_sendmsg", bounded=BV, timeout=2400),
     readv3=dict(name="c16_readv3", bounded="<= 3 kernel answers, 3 iovecs x <= 2 bytes", timeout=2400),
     writev3=dict(name="c16_writev3", bounded="<= 3 kernel answers, 3 iovecs x <= 2 bytes", timeout=2400),
+    read_long=dict(name="c16_read_long", tier="thorough", bounded="<= 6 kernel answers, buffer <= 3 bytes", timeout=2400),
+    write_long=dict(name="c16_write_long", tier="thorough", bounded="<= 6 kernel answers, buffer <= 3 bytes", timeout=2400),
+    recvmsg3=dict(name="c16_recvmsg3", tier="thorough", bounded="<= 3 kernel answers, 3 iovecs x <= 2 bytes", timeout=3000),
+    sendmsg3=dict(name="c16_sendmsg3", tier="thorough", bounded="<= 3 kernel answers, 3 iovecs x <= 2 bytes", timeout=3000),
     accept=dict(name="c18_accept", bounded="<= 4 kernel answers"),
     connect=dict(name="c18_connect", bounded="<= 3 wait rounds"),
 )
